@@ -141,7 +141,7 @@ class HangResult(list):
 UNRESOLVED_HANGS = []
 
 
-def pmap(func, items, limit=20.0, confirm=True):
+def pmap(func, items, limit=20.0, confirm=True, serial_below=64):
     """Parallel map over items with fork workers (implementation side).  Each item runs under an alarm of `limit` seconds.
     An item that does not return is run again alone, in this process, with a generous limit (a loaded pool or an expensive
     exact computation of the harness is not a hang); if it still does not return it yields a HangResult and is logged in
@@ -150,7 +150,7 @@ def pmap(func, items, limit=20.0, confirm=True):
     g = _Guarded(func, limit)
     res = []
     hangs = 0
-    if len(items) < 64:
+    if len(items) < serial_below:
         for x in items:
             res.append(g(x) if hangs < 32 else HANG)
             hangs += isinstance(res[-1], str) and res[-1] == HANG
